@@ -50,46 +50,61 @@ def appOf (j : Json) : R HApp := do
            opts := ← (← fArr j "opts").toList.mapM optOf,
            cmds := ← (← fArr j "cmds").toList.mapM cmdOf }
 
-def jPage (w : Nat) (p : Page) (r : Except Err Str) : Json :=
-  Json.mkObj [("page", jExcept jStr r), ("width_ok", .bool (widthOK w p)), ("min_width", jNat (minWidth p)),
+def jPage (w k : Nat) (p : Page) (r : Except Err Str) : Json :=
+  Json.mkObj [("page", jExcept jStr r), ("width_ok", .bool (widthOKAt w k p)), ("min_width", jNat (minWidthAt k p)),
               ("labels", jStrs (p.filterMap fun ie => match ie.2 with
                 | .labeled l _ _ _ => some l
                 | _ => none)),
               ("wraps", jList (fun (c : Int × Str) => Json.arr #[jInt c.1, jStr c.2,
-                  if c.1 ≤ 0 then .null else jStrs (wrapH c.1.toNat c.2)]) (wrapCalls w p))]
+                  if c.1 ≤ 0 then .null else jStrs (wrapH c.1.toNat c.2)]) (wrapCallsAt w k p))]
 
-def appPage (app : HApp) (w : Nat) : Json :=
-  jPage w (applicationHelp app) (renderApplicationHelp wrapH w app)
+/-- the application page rendered at the outer indentation `k` (`render(io, k)`; 0 = `render(io)`) -/
+def appPage (app : HApp) (w : Nat) (k : Nat := 0) : Json :=
+  jPage w k (applicationHelp app) (renderApplicationHelpAt wrapH w k app)
 
-def cmdPage (app : HApp) (w : Nat) (path : List Str) : Json :=
+def cmdPage (app : HApp) (w : Nat) (k : Nat) (path : List Str) : Json :=
   match findPath app.ctx app.cmds path with
   | none => Json.mkObj [("page", jErr (.other "NoSuchCommandException"))]
-  | some (x, c) => jPage w (commandHelp app x c) (renderCommandHelp wrapH w app x c)
+  | some (x, c) => jPage w k (commandHelp app x c) (renderCommandHelpAt wrapH w k app x c)
 
 def jTarget : Target → Json
   | .app => .str "app"
   | .cmd p => Json.mkObj [("cmd", jStrs p)]
 
-/-- target of a line and the text it prints -/
-def targetOf (cv : Conv) (app : HApp) (w : Nat) (toks : List Str) : Json :=
+/-- the `textwrap.wrap` calls of the page a help request prints (the handler renders it at indentation 0) -/
+def targetWraps (app : HApp) (w : Nat) : Target → List (Int × Str)
+  | .app => wrapCalls w (applicationHelp app)
+  | .cmd path =>
+    match findPath app.ctx app.cmds path with
+    | none => []
+    | some (x, c) => wrapCalls w (commandHelp app x c)
+
+/-- target of a line and the text it prints; `withWraps`: also the (width, text) pairs handed to
+`textwrap.wrap` (asked for when the direct renderings of the case use another indentation, so that
+their wrap calls say nothing about the page the run prints) -/
+def targetOf (cv : Conv) (app : HApp) (w : Nat) (withWraps : Bool) (toks : List Str) : Json :=
   match helpTarget cv (toCmd.toCmds app.cmds) toks with
   | .error e => jErr e
   | .ok none => jOk .null
-  | .ok (some t) => jOk (Json.mkObj [("target", jTarget t), ("page", jExcept jStr (renderTarget wrapH w app t))])
+  | .ok (some t) =>
+    jOk (Json.mkObj ([("target", jTarget t), ("page", jExcept jStr (renderTarget wrapH w app t))] ++
+      (if withWraps then
+        [("wraps", jList (fun (c : Int × Str) => Json.arr #[jInt c.1, jStr c.2]) (targetWraps app w t))]
+       else [])))
 
 def handle (m : String) (j : Json) : Option (R Json) :=
   match m with
   | "c13.app_help" => some do
       let app ← appOf (← field j "app")
-      return appPage app (← fNat j "width")
+      return appPage app (← fNat j "width") ((← fOptNat j "indent").getD 0)
   | "c13.command_help" => some do
       let app ← appOf (← field j "app")
       let path ← (← fArr j "path").toList.mapM asChars
-      return cmdPage app (← fNat j "width") path
+      return cmdPage app (← fNat j "width") ((← fOptNat j "indent").getD 0) path
   | "c13.target" => some do
       let app ← appOf (← field j "app")
       let toks ← (← fArr j "tokens").toList.mapM asChars
-      return targetOf (← C01.convOf j) app (← fNat j "width") toks
+      return targetOf (← C01.convOf j) app (← fNat j "width") false toks
   | "c13.all" => some do
       let app ← appOf (← field j "app")
       let w ← fNat j "width"
@@ -102,8 +117,10 @@ def handle (m : String) (j : Json) : Option (R Json) :=
         | .arr a => a.toList.mapM asChars
         | _ => .error "lines: array of arrays expected"
       let cv ← C01.convOf j
-      return Json.mkObj [("app", appPage app w), ("cmds", jList (cmdPage app w) paths),
-                         ("targets", jList (targetOf cv app w) lines)]
+      -- the outer indentation the pages are rendered at (`render(io, indent)`); the runs of `help ...` never pass one
+      let k := (← fOptNat j "indent").getD 0
+      return Json.mkObj [("app", appPage app w k), ("cmds", jList (cmdPage app w k) paths),
+                         ("targets", jList (targetOf cv app w (k != 0)) lines)]
   | "c13.wired" => some do
       -- the hypotheses of `help_same_page_default`, decided on the tree the resolver works on
       let app ← appOf (← field j "app")
